@@ -3,14 +3,18 @@ package main
 import (
 	"bytes"
 	"crypto/sha256"
+	"errors"
 	"fmt"
 	"math/rand"
 	"os"
+	"path/filepath"
 	"regexp"
 	"strconv"
 	"strings"
+	"sync"
 
 	"github.com/rogpeppe/go-internal/diff"
+	"github.com/rogpeppe/go-internal/testscript"
 
 	"verif/harness/internal/corr"
 	"verif/harness/internal/mdl"
@@ -383,6 +387,239 @@ func oracle(res *corr.Result, c *diffCase, out []byte, panicked bool) int {
 	return len(hs)
 }
 
+// ---------------------------------------------------------------- history oracle (result must not alias later calls)
+
+// kept is the result of one Diff call: the very slice that was returned, and a private copy.
+type kept struct {
+	c    *diffCase
+	out  []byte
+	copy []byte
+}
+
+var perturbInputs = [][4]string{
+	{"hist-old", "p\nq\nr\n", "hist-new", "p\nr\ns\n"},
+	{"h1", "", "h2", "only\n"},
+	{"a-rather-long-name-for-the-old-side", strings.Repeat("same\n", 40) + "x\n" + strings.Repeat("same\n", 40), "n", strings.Repeat("same\n", 40) + "y\n" + strings.Repeat("same\n", 40) + "tail"},
+}
+
+// perturb makes further Diff calls on fixed inputs: from this goroutine and from two concurrent ones.
+func perturb() {
+	var wg sync.WaitGroup
+	for g := 0; g < 2; g++ {
+		wg.Add(1)
+		go func(g int) {
+			defer wg.Done()
+			for k := range perturbInputs {
+				p := perturbInputs[(k+g)%len(perturbInputs)]
+				safeDiff(&diffCase{oldName: p[0], newName: p[2], old: []byte(p[1]), new: []byte(p[3])})
+			}
+		}(g)
+	}
+	for _, p := range perturbInputs {
+		safeDiff(&diffCase{oldName: p[0], newName: p[2], old: []byte(p[1]), new: []byte(p[3])})
+	}
+	wg.Wait()
+}
+
+// checkKept verifies that a result kept across later Diff calls is still what was returned.
+func checkKept(res *corr.Result, k kept) {
+	res.OracleChecked["C08"]++
+	res.Distribution["history-checked"]++
+	if bytes.Equal(k.out, k.copy) {
+		return
+	}
+	what := "the slice returned by Diff changed after later Diff calls (result aliases storage reused by other calls)"
+	sub := corr.NewResult("diff", "", 0)
+	if oracle(sub, k.c, k.out, false); len(sub.Violations) > 0 {
+		what += "; it now fails: " + sub.Violations[0].What
+	}
+	res.Violate("C08", k.c.enc(), what, "result-aliased")
+}
+
+// ---------------------------------------------------------------- end to end: the diff that cmp / cmpenv log
+
+var (
+	errSkipT = errors.New("recT: skip")
+	errFailT = errors.New("recT: fail")
+)
+
+// recT is a recording testscript.T.
+type recT struct {
+	mu      sync.Mutex
+	log     strings.Builder
+	verdict string
+}
+
+func (t *recT) Skip(a ...any)  { t.Log(a...); panic(errSkipT) }
+func (t *recT) Fatal(a ...any) { t.Log(a...); t.FailNow() }
+func (t *recT) Parallel()      {}
+func (t *recT) Log(a ...any) {
+	t.mu.Lock()
+	defer t.mu.Unlock()
+	t.log.WriteString(fmt.Sprint(a...))
+	t.log.WriteString("\n")
+}
+func (t *recT) FailNow()      { panic(errFailT) }
+func (t *recT) Verbose() bool { return false }
+func (t *recT) Run(name string, f func(testscript.T)) {
+	defer func() {
+		switch r := recover(); r {
+		case nil:
+			t.verdict = "pass"
+		case errSkipT:
+			t.verdict = "skip"
+		case errFailT:
+			t.verdict = "fail"
+		default:
+			t.verdict = "crash: " + fmt.Sprint(r)
+		}
+	}()
+	f(t)
+}
+
+// scriptCase is one generated script with a failing cmp / cmpenv of the files "actual" and "want".
+type scriptCase struct {
+	script []byte // the txtar script file
+	text1  []byte // content of "actual"
+	want2  []byte // the text "want" is compared as: env-expanded for cmpenv, raw for cmp
+}
+
+func (c *scriptCase) enc() string {
+	return "script " + corr.Hx(c.script) + " " + corr.Hx(c.text1) + " " + corr.Hx(c.want2)
+}
+
+var scriptPlain = []string{"alpha", "beta", "", "-", "+x", "@@ -1 +1 @@", "\\ No newline at end of file", "}", "--- old", "+++ new", "common", "common", "tail"}
+
+// genScript builds a script whose "want" file refers to variables; "actual" equals the expanded
+// "want" up to a few edits (so the correct diff is small) and also holds a literal $AAA line.
+func genScript(r *rand.Rand, env bool) *scriptCase {
+	vars := [][2]string{{"AAA", []string{"one", "x-y", "v1"}[r.Intn(3)]}, {"BBB", []string{"two", "", "zz"}[r.Intn(3)]}}
+	n := 3 + r.Intn(14)
+	var raw, expanded []string
+	for i := 0; i < n; i++ {
+		switch r.Intn(4) {
+		case 0:
+			v := vars[r.Intn(2)]
+			if r.Intn(2) == 0 {
+				raw = append(raw, "ref $"+v[0]+" end")
+				expanded = append(expanded, "ref "+v[1]+" end")
+			} else {
+				raw = append(raw, "pre${"+v[0]+"}post "+strconv.Itoa(i))
+				expanded = append(expanded, "pre"+v[1]+"post "+strconv.Itoa(i))
+			}
+		case 1:
+			l := "line " + strconv.Itoa(i)
+			raw, expanded = append(raw, l), append(expanded, l)
+		default:
+			l := scriptPlain[r.Intn(len(scriptPlain))]
+			raw, expanded = append(raw, l), append(expanded, l)
+		}
+	}
+	// always at least one reference
+	raw = append(raw, "last $AAA.")
+	expanded = append(expanded, "last "+vars[0][1]+".")
+	want := expanded
+	if !env {
+		want = raw
+	}
+	actual := editLines(r, want, 1)
+	actual = append(actual, "literal $AAA and ${BBB} stay") // never expanded: it is in the first file
+	for i, l := range actual {
+		if strings.HasPrefix(l, "-- ") && strings.HasSuffix(l, " --") { // would be a txtar marker
+			actual[i] = "x" + l
+		}
+	}
+	join := func(ls []string) string { return strings.Join(ls, "\n") + "\n" }
+	cmd := "cmp"
+	if env {
+		cmd = "cmpenv"
+	}
+	var sb strings.Builder
+	for _, v := range vars {
+		sb.WriteString("env " + v[0] + "=" + v[1] + "\n")
+	}
+	sb.WriteString(cmd + " actual want\n-- actual --\n" + join(actual) + "-- want --\n" + join(raw))
+	return &scriptCase{[]byte(sb.String()), []byte(join(actual)), []byte(join(want))}
+}
+
+// runScript runs the script through the real testscript.RunT and returns verdict and log.
+func runScript(root string, n int, script []byte) (string, string, error) {
+	dir := filepath.Join(root, fmt.Sprintf("s%05d", n))
+	if err := os.MkdirAll(filepath.Join(dir, "work"), 0o777); err != nil {
+		return "", "", err
+	}
+	file := filepath.Join(dir, "s.txt")
+	if err := os.WriteFile(file, script, 0o666); err != nil {
+		return "", "", err
+	}
+	t := &recT{}
+	func() {
+		defer func() {
+			if e := recover(); e != nil {
+				t.verdict = "crash outside T.Run: " + fmt.Sprint(e)
+			}
+		}()
+		testscript.RunT(t, testscript.Params{Files: []string{file}, WorkdirRoot: filepath.Join(dir, "work")})
+	}()
+	os.RemoveAll(dir)
+	return t.verdict, t.log.String(), nil
+}
+
+// scriptOracle: the diff logged by a failing cmp / cmpenv must be a diff between the two texts
+// that were compared: "actual" and ("want" after expansion, for cmpenv).
+func scriptOracle(res *corr.Result, root string, n int, c *scriptCase) {
+	verdict, log, err := runScript(root, n, c.script)
+	if err != nil {
+		res.Observations = append(res.Observations, "script case not run (I/O): "+err.Error())
+		return
+	}
+	res.OracleChecked["C08"]++
+	res.Distribution["cmp-log-checked"]++
+	in := c.enc()
+	bad := func(what string) { res.Violate("C08", in, what, "cmp-log-diff-wrong") }
+	if verdict != "fail" {
+		bad("a cmp of different texts did not fail the script: verdict " + verdict)
+		return
+	}
+	hdr := "diff actual want\n--- actual\n+++ want\n"
+	i := strings.Index(log, hdr)
+	if i < 0 {
+		bad("no unified diff header for actual/want in the log of the failing cmp")
+		return
+	}
+	j := strings.Index(log[i:], "\nFAIL: ")
+	if j < 0 {
+		bad("no FAIL line after the logged diff")
+		return
+	}
+	body := []byte(log[i+len(hdr) : i+j])
+	hs, class, what := parseUnified(body)
+	if class != "" {
+		bad("the logged diff does not parse (" + class + "): " + what)
+		return
+	}
+	got, class, what := applyHunks(c.text1, hs, false)
+	if class != "" {
+		bad("the logged diff does not apply to the first text (" + class + "): " + what)
+	} else if !bytes.Equal(got, c.want2) {
+		bad("the logged diff, applied to the first text, does not give the text it was compared with")
+	}
+	back, class, what := applyHunks(c.want2, hs, true)
+	if class != "" {
+		bad("the logged diff does not reverse-apply to the compared second text (" + class + "): " + what)
+	} else if !bytes.Equal(back, c.text1) {
+		bad("the logged diff, reverse-applied to the compared second text, does not give the first text")
+	}
+}
+
+func decScript(s string) (*scriptCase, error) {
+	f := strings.Fields(s)
+	if len(f) != 4 || f[0] != "script" {
+		return nil, fmt.Errorf("bad script case %q", s)
+	}
+	return &scriptCase{corr.Unhx(f[1]), corr.Unhx(f[2]), corr.Unhx(f[3])}, nil
+}
+
 // ---------------------------------------------------------------- run
 
 const batchSize = 60000
@@ -423,6 +660,7 @@ func runDiff(tier string, seed int64, model string, replay string) *corr.Result 
 			return
 		}
 		nh := make([]int, len(cases))
+		var pending []kept // results kept across the following Diff calls
 		for i, c := range cases {
 			out, panicked := safeDiff(c)
 			impl := corr.Hx(out)
@@ -449,6 +687,18 @@ func runDiff(tier string, seed int64, model string, replay string) *corr.Result 
 			}
 			if (len(c.old) > 0 && c.old[len(c.old)-1] != '\n') || (len(c.new) > 0 && c.new[len(c.new)-1] != '\n') {
 				res.Distribution["missing-final-newline"]++
+			}
+			// history oracle: keep this result (the very slice) across the following Diff calls
+			if !panicked && len(out) > 0 && (c.origin != "exhaustive" || (total+i)%11 == 0) {
+				pending = append(pending, kept{c, out, append([]byte{}, out...)})
+			}
+			if len(pending) > 0 && (len(pending) >= 3 || i == len(cases)-1) {
+				// each kept result has by now seen 0-2 further cases; add calls on fixed inputs, also concurrent ones
+				perturb()
+				for _, k := range pending {
+					checkKept(res, k)
+				}
+				pending = pending[:0]
 			}
 		}
 		for j, i := range chk {
@@ -483,6 +733,23 @@ func runDiff(tier string, seed int64, model string, replay string) *corr.Result 
 		}
 	}
 
+	scriptRoot, rootErr := os.MkdirTemp("", "giv-diff-scripts-")
+	if rootErr != nil {
+		res.Observations = append(res.Observations, "no temp dir for script cases: "+rootErr.Error())
+	} else {
+		defer os.RemoveAll(scriptRoot)
+	}
+	if strings.HasPrefix(replay, "script ") {
+		c, err := decScript(replay)
+		if err != nil || rootErr != nil {
+			res.Disagree(replay, "", fmt.Sprint(err, rootErr))
+			return res
+		}
+		scriptOracle(res, scriptRoot, 0, c)
+		res.Evaluations = 1
+		res.Rule = "replay of one cmp/cmpenv script case"
+		return res
+	}
 	if replay != "" {
 		c, err := decCase(replay)
 		if err != nil {
@@ -525,10 +792,28 @@ func runDiff(tier string, seed int64, model string, replay string) *corr.Result 
 	}
 	flush()
 
+	// end to end: the diff logged by a failing cmp / cmpenv (testscript/cmd.go doCmdCmp)
+	nscripts := 0
+	if replay == "" && rootErr == nil {
+		nscripts = 80
+		if tier == "thorough" {
+			nscripts = 1500
+		}
+		for i := 0; i < nscripts; i++ {
+			c := genScript(r, i%4 != 3) // three cmpenv for one cmp
+			scriptOracle(res, scriptRoot, i, c)
+			if i == 0 {
+				res.Samples = append(res.Samples, map[string]string{"case": c.enc()})
+			}
+		}
+		evals += nscripts
+		nontrivial += nscripts
+	}
+
 	res.Evaluations = evals
 	res.DistinctNontrivial = nontrivial
 	res.Distribution["cases"] = total
-	res.Rule = "distinct (oldName, old, newName, new) cases with old ≠ new (so that a diff with at least one hunk must be produced); each is run through diff.Diff and the Lean model and the exact output bytes compared; the implementation's output is parsed and applied / reverse-applied by an independent Go patch applier; for the random cases (and a sample of the exhaustive ones) the model's verified applier is also run on the model's hunks and the hunk count compared with the parsed one (these runs are counted in evaluations, not in distinct_nontrivial)"
+	res.Rule = "distinct (oldName, old, newName, new) cases with old ≠ new (so that a diff with at least one hunk must be produced); each is run through diff.Diff and the Lean model and the exact output bytes compared; the implementation's output is parsed and applied / reverse-applied by an independent Go patch applier; for the random cases (and a sample of the exhaustive ones) the model's verified applier is also run on the model's hunks and the hunk count compared with the parsed one (these runs are counted in evaluations, not in distinct_nontrivial); results of the random cases (and a sample of the exhaustive ones) are kept across further Diff calls, also concurrent ones, and must stay unchanged (class result-aliased); generated scripts with a failing cmp / cmpenv whose second file refers to $VAR / ${VAR} are run through the real testscript.RunT and the diff found in the log must patch the first file into the (expanded) second one and back (class cmp-log-diff-wrong; each script counts as one non-trivial case)"
 	if firstCase != nil {
 		res.Samples = append([]any{firstCase}, res.Samples...)
 		res.Samples = append(res.Samples, lastCase)
